@@ -195,7 +195,12 @@ func dumpContainer(cv reflect.Value) []string {
 		fv := cv.Field(i)
 		switch fv.Kind() {
 		case reflect.Slice:
-			out = append(out, sf.Name+".len=u"+strconv.Itoa(fv.Len()))
+			if fv.IsNil() {
+				// nil and empty are not deeply equal: keep them apart
+				out = append(out, sf.Name+".len=nil")
+			} else {
+				out = append(out, sf.Name+".len=u"+strconv.Itoa(fv.Len()))
+			}
 			for j := 0; j < fv.Len(); j++ {
 				out = append(out, sf.Name+"["+strconv.Itoa(j)+"]="+canonValue(fv.Index(j)))
 			}
